@@ -52,6 +52,10 @@ func encScanSGR(p []byte) (stream []int, text []byte, rawctl int) {
 	return
 }
 
+// encTSOK: is this the timestamp field of the record?  The per-record check logs with a fixed
+// instant; the history component (real entry points, time.Now) swaps in a window test.
+var encTSOK = func(field string) bool { return strings.Contains(field, encTS.UTC().Format("15:04:05")) }
+
 var encCallerRe = regexp.MustCompile(`^(.*) ([^=\s]*):(\d+) (\S+)$`)
 
 func encObsColor(r *encRun, payload []byte, site encSite) map[string]any {
@@ -94,7 +98,7 @@ func encObsColor(r *encRun, payload []byte, site encSite) map[string]any {
 	if sp <= 0 {
 		return o
 	}
-	o["ts"] = strings.Contains(first[:sp], encTS.UTC().Format("15:04:05"))
+	o["ts"] = encTSOK(first[:sp])
 	cur := first[sp+1:]
 	// 2. optional logger name, 3. [TAG]
 	if !strings.HasPrefix(cur, "[") {
@@ -112,6 +116,7 @@ func encObsColor(r *encRun, payload []byte, site encSite) map[string]any {
 	}
 	tag := cur[1:j]
 	o["tagw"] = utf8.RuneCountInString(tag)
+	o["tagtext"] = tag // raw text for the history component (removed before the trace is written)
 	o["tagok"] = utf8.ValidString(tag) && !strings.ContainsAny(tag, "[]")
 	cur = cur[j+2:]
 	o["parsed"] = true
